@@ -119,7 +119,8 @@ class Runtime:
         import stingray.cobol_parser as cp
         import stingray.schema_instance as si
         import stingray.workbook as wb
-        self.cp, self.si, self.wb = cp, si, wb
+        import stingray.estruct as es
+        self.cp, self.si, self.wb, self.es = cp, si, wb, es
         self.mops = []
         self.docs = []       # {"doc", "before"}
         self.schemas = []    # {"schema", "doc", "before", "alias"}
@@ -377,6 +378,20 @@ class Runtime:
                     self.call(s.print)
                     self.call(lambda: list(s.dump_iter(None)))
                     self.call(lambda: repr(s))
+        elif kind == "helpers":
+            # ordinary use of entry points that have nothing to do with the probe: the conversion helpers on floats, strings and
+            # Decimals, name cleaning, sizes and decodes of wide packed / zoned / binary items (no modelled state touched)
+            self.mops.append([5])
+            from decimal import Decimal as D
+            E, SI, WB = self.es, self.si, self.wb
+            for f in (lambda: SI.decimal_places(2, 3.14159), lambda: SI.decimal_places(2, 2.675), lambda: SI.decimal_places(0, 7.5),
+                      lambda: SI.decimal_places(3, "1.23456"), lambda: SI.decimal_places(2, D("12345678901234567890.125")),
+                      lambda: SI.digit_string(5, 1020.0), lambda: SI.digit_string(16, 9007199254740993),
+                      lambda: [g(1) for g in SI.CONVERSION.values()], lambda: WB.name_cleaner("Total ($)\n"),
+                      lambda: E.calcsize("USAGE COMP-3 PIC S9(31)"), lambda: E.unpack("USAGE COMP-3 PIC S9(31)", bytes([0x12] * 15 + [0x3D])),
+                      lambda: E.unpack("USAGE DISPLAY PIC 9(20)V9(10)", bytes([0xF1] * 30)),
+                      lambda: E.unpack("USAGE COMP PIC S9(18)", bytes(8)), lambda: E.unpack("USAGE COMP-3 PIC 9(3)", bytes([0x1A, 0x3C]))):
+                self.call(f)
         elif kind == "csv":
             self.mops.append([5])
             from pathlib import Path
